@@ -8,7 +8,12 @@ import random
 from harness import common, gen, refcheck
 
 PID = "C02"
-I, J = 1, 2
+I, J, K3 = 1, 2, 3
+LOOPS = [
+    {"text": "B=B+1"}, {"text": "FOR I=1 TO 2", "open": [I]}, {"text": "FOR J=1 TO 2", "open": [J]}, {"text": "FOR K=1 TO 2", "open": [K3]},
+    {"text": "NEXT", "close": [0]}, {"text": "NEXT I", "close": [I]}, {"text": "NEXT J", "close": [J]}, {"text": "NEXT K", "close": [K3]},
+    {"text": "NEXT J,I", "close": [J, I]}, {"text": "NEXT K,J", "close": [K3, J]}, {"text": "NEXT K,J,I", "close": [K3, J, I]},
+]
 PALETTE = [
     {"text": "B=B+1"}, {"text": "C=A+B"}, {"text": "PRINT B"},
     {"text": "IF A=1 THEN 90", "last": True, "grp": 1},
@@ -80,8 +85,15 @@ def main():
                               simulate=6000 if thorough else 260, depth=30, seed=common.seed())
     if thorough:
         progs += gen.gen_programs(rep, wd, "two", PALETTE, 2, 1, maxpergroup=2)
+    # every way to open and close up to three nested loops (bare NEXT, NEXT v, NEXT lists), exhaustively
+    loops = gen.gen_programs(rep, wd, "loops", LOOPS, 1, 8 if thorough else 7, maxdepth=3, maxpergroup=9)
+    loops = [p for p in loops if sum(1 for k in p[0] if "open" in LOOPS[k]) >= 2 and sum(1 for k in p[0] if LOOPS[k]["text"] == "B=B+1") <= 1]
+    rep.count("loop_nests", len(loops))
     seen = set()
     plan = []
+    for p in loops:
+        lines = ["5 INPUT A"] + gen.render_program(LOOPS, p) + TAIL
+        plan.append({"lines": lines, "opts": dict(OPTS[3] if len(plan) % 2 else OPTS[1]), "scripts": scripts()[:1], "fuel": 250})
     for p in progs:
         lines = ["5 INPUT A"] + gen.render_program(PALETTE, p) + TAIL
         key = "\n".join(lines)
